@@ -137,4 +137,39 @@ CHECKS.update({
     },
 })
 
+CHECKS.update({
+    "C14": {
+        "level": "exploration",
+        "technique": "runtime monitoring: schedule / order / hash-seed / cwd / root-spelling perturbation of real `reuse` processes, normalised outputs compared with a baseline run, task logs recording the interleavings seen",
+        "text": "each tree is processed by real processes under sampled configurations (pool proxy fixing worker count and chunk size and "
+                "injecting per-task delays, shuffled os.walk / glob listings, PYTHONHASHSEED, cwd, seven spellings of --root); every "
+                "normalised lint / spdx output must equal the baseline's. The evidence counts distinct completion orders and "
+                "task->pid assignments actually observed.",
+        "note": "scheduling is perturbed, not enumerated; held on the interleavings produced",
+    },
+    "C15": {
+        "level": "exploration",
+        "technique": "runtime monitoring: audit-hook file-system mutation log + content/metadata snapshots of project and outside sentinel + strace -f cross-check on a sample",
+        "text": "every subcommand with sampled options, alone and in sequences, on trees with outside-pointing symlinks, ignored files and "
+                "read-only files; every mutation event and every snapshot difference must lie in the command's documented write set.",
+        "note": ".git/index refreshed by the `git status` child is tolerated and reported; explicit symlink arguments to annotate are grey",
+    },
+    "C17": {
+        "level": "exploration",
+        "technique": "runtime monitoring: relational oracle - lint before vs after the real convert-dep5, python-debian matcher vs converted REUSE.toml matcher path by path, M-fs event order, injected write failure",
+        "text": "all dep5 patterns up to length 3 / 5 against all normalised paths up to length 4 / 5; real trees with generated dep5 files; "
+                "write-before-remove order seen in the audit log; ENOSPC injected on the REUSE.toml write must leave dep5 in place; "
+                "refusal without dep5.",
+        "note": "python-debian defines what a dep5 meant; two inexpressible cases ('?', '*/') are listed known findings",
+    },
+    "C19": {
+        "level": "fault_enumeration",
+        "technique": "runtime monitoring with fault enumeration: loopback HTTP stub with per-identifier outcome, snapshots of project / source / output directories, stub request log, follow-up lint",
+        "text": "request sets x LICENSES/ states x cwd x VCS x --root x network outcome per identifier (200/404/500/closed/reset in mid-body) "
+                "with the failure in every batch position; no existing file may change, nothing partial may remain, '+' and LicenseRef- "
+                "never reach the network, exit status reflects failures, lint reports nothing missing after a successful --all.",
+        "note": "the stub replaces the network; exceptions escaping on transfer faults are counted, only their consequences asserted",
+    },
+})
+
 NOT_APPLICABLE = {}
